@@ -128,6 +128,23 @@ def tupleGet {α : Type} (t : List α) (i : Int) : R α := pyGet t i
 /-- Python's order on pairs of integers (`(a, b) <= (c, d)`), the key order of `sorted(..., key=lambda v: (k1, k2))` -/
 def lexLe2 (a b : Int × Int) : Bool := decide (a.1 < b.1) || (decide (a.1 = b.1) && decide (a.2 ≤ b.2))
 
+/-- `d[k]`: KeyError when the key is absent -/
+def dictGet {κ ν : Type} [DecidableEq κ] (d : List (κ × ν)) (k : κ) : R ν :=
+  match dGet? d k with
+  | some v => .ok v
+  | none => .error .key
+
+/-- attribute access on a variable that may hold `None` where an object is needed: AttributeError -/
+def needObj {α : Type} : Option α → R α
+  | some x => .ok x
+  | none => .error .attribute
+
+/-- `obj.add_row(row)` for a Scaffold object reached through a reference into the arena of scaffolds created by the kernel -/
+def arenaAddRow (heap : List Scaffold) (r : Nat) (row : Row) : List Scaffold :=
+  match heap[r]? with
+  | some s => heap.set r { s with rows := s.rows ++ [row] }
+  | none => heap
+
 /-- `b * n` for a bytes value: `n` copies (none for `n ≤ 0`) -/
 def bytesRepeat (b : List Nat) (n : Int) : List Nat := (List.replicate n.toNat b).flatten
 
